@@ -39,6 +39,76 @@ class ClassRef(Stub):
         return Opaque(f"{self.name}()")
 
 
+class EnumMember(Stub):
+    """A member of an Enum class of the analysed package (str-mixin enums compare equal to their value)."""
+
+    def __init__(self, cls: str, name: str, value: Any, str_mixin: bool = True):
+        self.cls, self.name, self.value, self._str = cls, name, value, str_mixin
+
+    def __eq__(self, o):
+        if isinstance(o, EnumMember):
+            return (o.cls, o.name) == (self.cls, self.name)
+        return self._str and o == self.value
+
+    def __ne__(self, o):
+        return not self.__eq__(o)
+
+    def __hash__(self):
+        return hash(("EnumMember", self.cls, self.name))
+
+    def __repr__(self):
+        return f"{self.cls}.{self.name}"
+
+    def lower(self):
+        return self.value.lower() if isinstance(self.value, str) else self
+
+    def __str__(self):
+        return f"{self.cls}.{self.name}"
+
+
+class EnumClass(Stub):
+    def __init__(self, name: str, members: Dict[str, Any], str_mixin: bool):
+        self.__name__ = name
+        self._members = {n: EnumMember(name, n, v, str_mixin) for n, v in members.items()}
+
+    def __getattr__(self, name):
+        if name.startswith("_"):
+            raise AttributeError(name)
+        ms = self.__dict__.get("_members", {})
+        if name in ms:
+            return ms[name]
+        raise AttributeError(name)
+
+    def __iter__(self):
+        return iter(self._members.values())
+
+    def _abs_call(self, v):
+        for m in self._members.values():
+            if m is v or m.value == v:
+                return m
+        from .pyinterp import InterpRaised
+        raise InterpRaised("ValueError", f"{v!r} is not a valid {self.__name__}")
+
+    def __getitem__(self, name):
+        return self._members[name]
+
+
+def enum_class(ci) -> Optional["EnumClass"]:
+    """EnumClass for a ClassInfo whose bases name Enum and whose members are literals; None otherwise."""
+    bases = [ast.unparse(b).split(".")[-1] for b in ci.node.bases]
+    if not any(b in ("Enum", "IntEnum", "StrEnum") for b in bases):
+        return None
+    members = {}
+    for n, (ann, val, st) in ci.attrs.items():
+        if val is None or n.startswith("_"):
+            continue
+        try:
+            members[n] = ast.literal_eval(val)
+        except (ValueError, TypeError, SyntaxError):
+            return None
+    return EnumClass(ci.name, members, "str" in bases or "StrEnum" in bases)
+
+
 class AbsObj(Stub):
     """An abstract instance: `classes` are the class names it is an instance of; attributes are set by the rule."""
     _settable = True
@@ -82,6 +152,9 @@ class ModuleEnv(Env):
             rc = record_class(m.classes[k].node)
             if rc is not None:
                 return rc
+            ec = enum_class(m.classes[k])
+            if ec is not None:
+                return ec
             return ClassRef(k, f"{m.name}.{k}")
         if k in m.constants:
             try:
